@@ -281,6 +281,10 @@ class RefShape(object):
         by = {c.name: c for c in self.cps}
         self.crosses = [RefCross(c, by, cgspec) for c in var.get("crosses", [])]
         self.key = (cgspec["name"], tuple(c.shape() for c in self.cps), tuple(c.shape() for c in self.crosses))
+        # the same without bin names (generators keep variants apart by value sets, not by names only)
+        self.value_key = (cgspec["name"],
+                          tuple((c.name,) + tuple(tuple(s for _, s in part) for part in c.shape()[1:]) for c in self.cps),
+                          tuple(c.shape() for c in self.crosses))
 
 
 def eval_iff(iff, values):
